@@ -73,7 +73,7 @@ type Stream struct {
 	goid         uint64
 	done         chan struct{} // closed when the server closed the stream
 	failRun      int           // run in which the host's I/O first failed (-1: never)
-	failBytes    int // bytes of that run moved before the failure
+	failBytes    int           // bytes of that run moved before the failure
 }
 
 // Failure returns the host-side run in which the stream's I/O first failed
@@ -391,7 +391,7 @@ type clientConn struct {
 	werr    error
 }
 
-const closeGrace = 250 * time.Millisecond
+const closeGrace = 2 * time.Second
 
 func newClientConn(c net.Conn) *clientConn {
 	cc := &clientConn{Conn: c}
